@@ -141,7 +141,7 @@ theorem countInv_thr (P : Prog) (s s' : State) (t : Nat) (h : step P s t = some 
         · rw [h1] at hk
           rcases hs with hs | hs | hs <;> rw [hs] at hk <;> simp at hk
         · rw [h1] at hk; simp at hk
-      · rcases oth k hkt with h1 | h1 | ⟨_, _, h1⟩ | ⟨_, h1⟩
+      · rcases oth k hkt with h1 | h1 | ⟨_, _, _, h1⟩ | ⟨_, h1⟩
         · rw [h1] at hk ⊢; exact hi.nocode k hk
         · rw [h1] at hk ⊢; exact hi.nocode k hk
         · rw [h1]
